@@ -33,6 +33,9 @@ pub struct Stats {
     pub outcomes: BTreeMap<String, u64>,
     pub cap_hit: bool,
     pub samples: Vec<Value>,
+    /// counters merged by maximum
+    #[serde(default)]
+    pub maxima: BTreeMap<String, u64>,
 }
 
 impl Stats {
@@ -57,6 +60,10 @@ impl Stats {
             *self.outcomes.entry(k.clone()).or_insert(0) += v;
         }
         self.cap_hit |= o.cap_hit;
+        for (k, v) in &o.maxima {
+            let e = self.maxima.entry(k.clone()).or_insert(0);
+            *e = (*e).max(*v);
+        }
         for s in &o.samples {
             if self.samples.len() < 6 {
                 self.samples.push(s.clone());
@@ -177,6 +184,7 @@ pub fn finish(rep: Report<'_>, stats: &Stats, viols: &[Viol], wall_s: f64) -> i3
             "cap_hit": stats.cap_hit,
             "outcome_classes": stats.outcomes,
             "nonvacuity": stats.counters,
+            "maxima": stats.maxima,
             "engine": rep.engine,
             "config": rep.config,
             "known_findings_matched": matched,
